@@ -180,6 +180,14 @@ def probe_source(crate, n, feats, fx):
                  "key-local": "decrypting", "key-public": "verifying", "key-secret": "signing", "key-pkepublic": "pke", "key-pkesecret": "pke"}
     key_kind = {"key-local": "Local", "key-public": "Public", "key-secret": "Secret", "key-pkepublic": "PkePublic", "key-pkesecret": "PkeSecret"}
     for i, e in enumerate(fx.get("corpus", [])):
+        if e["kind"].startswith("public-under-key:"):
+            if "verifying" not in f:
+                continue
+            t = e["text"]
+            kh = e["kind"].split(":", 1)[1]
+            body = f'Key::<V, Public>::try_from(KeyText::<V, Public>::from_raw_bytes(&hexd("{kh}"))).and_then(|k| "{t}".parse::<paseto_core::SignedToken<V, M, Vec<u8>>>().and_then(|t| t.verify(&k, &NoValidation::dangerous_no_validation()))).map(|u| u.claims.0)'
+            s += f'    match {body} {{ Ok(b) => println!("VERDICT {i} ok:{{}}", b.iter().map(|x| format!("{{x:02x}}")).collect::<String>()), Err(_) => println!("VERDICT {i} err") }}\n'
+            continue
         if kind_feat[e["kind"]] not in f:
             continue
         t = e["text"].replace("\\", "\\\\").replace('"', '\\"')
@@ -196,7 +204,7 @@ def probe_source(crate, n, feats, fx):
         else:
             body = f'"{t}".parse::<paseto_core::paserk::SealedKey<V>>().and_then(|w| w.unseal(&key::<PkeSecret>("{fx["pke_secret"]}"))).map(|k| k.expose_key().as_raw_bytes().to_vec())'
         s += f'    match {body} {{ Ok(b) => println!("VERDICT {i} ok:{{}}", b.iter().map(|x| format!("{{x:02x}}")).collect::<String>()), Err(_) => println!("VERDICT {i} err") }}\n'
-    if any(kind_feat[e["kind"]] in f for e in fx.get("corpus", [])):
+    if any(kind_feat.get(e["kind"], "verifying") in f for e in fx.get("corpus", [])):
         ops.append("verdict-corpus")
     s += '    println!("DONE");\n}\n'
     return s, ops
@@ -459,7 +467,7 @@ def main():
     write_evidence("C19", tier, "exploration", {
         "evaluations": evaluations,
         "distinct_nontrivial": len(nontrivial),
-        "rule": "(1) every subset of the feature flags of paseto-v1/v2/v3/v4 collapsed to its distinct closure under the [features] implication graph read from Cargo.toml, each checked with cargo check --no-default-features --features <generators> (plus paseto-core +-serde, paseto-json +-claims): exhaustive over closures; (2) generated probe crates depending on the reduced build (quick: verify-only, decrypt-only, sign+encrypt (no PASERK), id+verify, id+decrypt, pie-wrap only, pbkw only, pke only and 2 seeded closures per crate; thorough: every non-empty closure) replay fixtures produced by the full build (tokens, PIE, PBKW, sealed key, ids for the run's seed) through every operation the closure offers and print what they produce, and give their verdict on a corpus of valid, foreign-built (independent signers incl. high-S ECDSA, reference-model tokens and blobs) and corrupted inputs and of key texts (the bytes of every key kind under every key header, parsed as every key kind the closure offers), which must equal the full build's verdict entry by entry; the full build and the reference model must accept it (deterministic signatures and ids byte-identical); (3) paseto-json: one probe program built against the crate with and without `claims` decodes and re-encodes a generated corpus of JSON texts (doubles of every magnitude in shortest / 18-digit / fixed / serde_json spelling, integer edge values, escapes, nesting, malformed texts) through Json<T> payload and footer: the two outputs must be identical line by line. Non-trivial iff the closure is neither empty nor full / a probe ran",
+        "rule": "(1) every subset of the feature flags of paseto-v1/v2/v3/v4 collapsed to its distinct closure under the [features] implication graph read from Cargo.toml, each checked with cargo check --no-default-features --features <generators> (plus paseto-core +-serde, paseto-json +-claims): exhaustive over closures; (2) generated probe crates depending on the reduced build (quick: verify-only, decrypt-only, sign+encrypt (no PASERK), id+verify, id+decrypt, pie-wrap only, pbkw only, pke only and 2 seeded closures per crate; thorough: every non-empty closure) replay fixtures produced by the full build (tokens, PIE, PBKW, sealed key, ids for the run's seed) through every operation the closure offers and print what they produce, and give their verdict on a corpus of valid, foreign-built (independent signers incl. high-S ECDSA, reference-model tokens and blobs) and corrupted inputs and of key texts (the bytes of every key kind under every key header, parsed as every key kind the closure offers) and, for the Ed25519 versions, tokens under a small-order public key, which must equal the full build's verdict entry by entry; the full build and the reference model must accept it (deterministic signatures and ids byte-identical); (3) paseto-json: one probe program built against the crate with and without `claims` decodes and re-encodes a generated corpus of JSON texts (doubles of every magnitude in shortest / 18-digit / fixed / serde_json spelling, integer edge values, escapes, nesting, malformed texts) through Json<T> payload and footer: the two outputs must be identical line by line. Non-trivial iff the closure is neither empty nor full / a probe ran",
         "samples": samples or [{"note": "no probe ran"}],
         "closures_per_crate": per_crate,
         "probes_run": probes,
